@@ -23,6 +23,9 @@ CONSTANTS
   MaxDepth = 2
   Opts = {o1, o2}
   Vals = {v0, v1}
+  Cells = {v0, v1, bad}
+  Mutable = {}
+  Heap0 <- HeapId
   Default <- Def2
   Bad = bad
   Unknown = unk
